@@ -38,7 +38,8 @@ def seeded():
     stren = sum(1 for d in metas if 'strengthened' in d['detection'].get('note', ''))
     stats = ("The changes were collected in rounds of three per property (ids -1..-3: first round; -4..-6: second round, sub-agents told to avoid the obvious "
              "places; -7..-9: third round, sub-agents told to look for interactions; -10..-12: fourth round, sub-agents told to look at rarely used entry points and options, "
-             "order / duplication / identity of results, error results, empty inputs and arithmetic on lengths). Of the %d confirmed changes %d are caught by the check of their own property, "
+             "order / duplication / identity of results, error results, empty inputs and arithmetic on lengths; -13..-15: fifth round, sub-agents told to look at state that "
+             "survives between calls, member counts and map order, numeric and Unicode boundaries, and the least used of several hand-copied variants). Of the %d confirmed changes %d are caught by the check of their own property, "
              "%d by the check of another property (where the defect belongs, e.g. reuse defects by C07), %d are not caught (reason in the note); %d were missed on the "
              "first run and led to a general extension of a check.\n\n" % (tot, own, tot - own - notc, notc, stren))
     head = ["### 8.4 Seeded property-breaking changes and which check catches which\n\n", stats,
